@@ -9,6 +9,7 @@ import GcmpyModel.Driver.Mix
 import GcmpyModel.Driver.C15
 import GcmpyModel.Driver.C16
 import GcmpyModel.Driver.C17
+import GcmpyModel.Driver.Covers
 /-! Line protocol: one JSON request per line on stdin, one JSON reply per line on stdout.
     The driver only *executes* the model's definitions; it is outside the proofs. -/
 open Lean Gcmpy.Driver
@@ -29,6 +30,8 @@ def dispatch (j : Json) : R Json := do
   | "c15" => C15.handle j
   | "c16" => C16.handle j
   | "c17" => C17.handle j
+  | "c09" => Covers.c09 j
+  | "c10" => Covers.c10 j
   | "ping" => pure (obj [("pong", Json.bool true)])
   | _ => throw s!"unknown op {op}"
 
